@@ -1214,3 +1214,39 @@ func (b Bounds) GenCandidateShapes(shape string, emit func(*Case)) {
 		}
 	}
 }
+
+// GenOverlapShape enumerates universes in which two independently computed candidate patches OVERLAP in the
+// vulnerabilities they fix (used by C11): bumping the direct dependency d1 (a -> b) moves its transitive
+// dependency t1 from x to z, and t1 can also be overridden/relaxed on its own.
+//
+//	overlap  manifest {d1: a}; d1@a -> t1@x, d1@b -> t1@z; t1 publishes {x,y,z}, x<y<z
+//	         vulns: D = d1 [0,b); T1 = t1 [0,y); T2 = t1 [0,y) and again from z on (fixed only by y)
+//	         vuln sets {D,T1,T2}, {D,D',T1,T2} (D' a second record like D), {D,T1}, {D,T2}
+//	         (a,b) in {(1.0.0,1.0.1),(1.0.0,1.1.0),(1.0.0,2.0.0)} x {x,y,z} 3-subsets of the ladder x vuln sets x CfgSets(d1,t1)
+func (b Bounds) GenOverlapShape(eco string, emit func(*Case)) {
+	cfgs := b.CfgSets([]string{"d1", "t1"})
+	for _, ab := range [][2]string{{"1.0.0", "1.0.1"}, {"1.0.0", "1.1.0"}, {"1.0.0", "2.0.0"}} {
+		for _, t := range Subsets(b.Ladder, 3) {
+			if len(t) != 3 {
+				continue
+			}
+			x, y, z := t[0], t[1], t[2]
+			d := Vuln{Pkg: "d1", Introduced: "0", Fixed: ab[1]}
+			t1 := Vuln{Pkg: "t1", Introduced: "0", Fixed: y}
+			t2 := Vuln{Pkg: "t1", Introduced: "0", Fixed: y, Introduced2: z}
+			for _, set := range [][]Vuln{{d, t1, t2}, {d, d, t1, t2}, {d, t1}, {d, t2}} {
+				vs := make([]Vuln, len(set))
+				for i, v := range set {
+					v.ID = fmt.Sprintf("V%d", i+1)
+					vs[i] = v
+				}
+				for _, cfg := range cfgs {
+					emit(&Case{Eco: eco, Shape: "overlap", Pkgs: []Pkg{
+						{Name: "d1", Vers: []Ver{{V: ab[0], Deps: []Dep{{Name: "t1", Req: x}}}, {V: ab[1], Deps: []Dep{{Name: "t1", Req: z}}}}},
+						{Name: "t1", Vers: plainVers(t)},
+					}, Manifest: []Req{{Name: "d1", Req: ab[0]}}, Vulns: vs, Cfg: cfg})
+				}
+			}
+		}
+	}
+}
